@@ -348,6 +348,16 @@ def do_op(pool, op):
                 kw = prng.choice([{}, {'precision': prng.randint(1, 10)}])
             elif fmt == 'crtf':
                 kw = prng.choice([{}, {'fmt': '.4f'}, {'radunit': 'arcsec'}, {'coordsys': 'galactic'}])
+            elif fmt == 'fits' and name == 'write' and op['k'] % 2:
+                # the optional header argument is an input too (a fits.Header or a plain dict, with only some of the standard cards)
+                from astropy.io import fits as _afits
+                if op['k'] % 4 == 1:
+                    hdr = _afits.Header()
+                    hdr['EXTNAME'] = 'REGION'
+                    hdr['OBSERVER'] = 'vmon'
+                else:
+                    hdr = {'EXTNAME': 'REGION', 'HDUCLASS': 'ASC', 'OBSERVER': 'vmon'}
+                kw = {'header': hdr}
             if name == 'serialize':
                 try:
                     res = target.serialize(format=fmt, **kw)
@@ -360,8 +370,11 @@ def do_op(pool, op):
                 # a handful of destinations, so that later writes meet files left by earlier ones
                 path = os.path.join(pool.workdir, f'w{op["k"] % 3}.' + {'ds9': 'reg', 'crtf': 'crtf', 'fits': 'fits'}[fmt])
                 was = open(path, 'rb').read() if os.path.exists(path) else None
+                hdr_fp = repr(kw['header']) if 'header' in kw else None
                 try:
                     target.write(path, format=fmt, overwrite=True, **kw)
+                    if hdr_fp is not None and repr(kw['header']) != hdr_fp:
+                        return name, RuntimeError('HEADER-ARGUMENT-MUTATED')
                 except Exception as e:
                     now = open(path, 'rb').read() if os.path.exists(path) else None
                     if now != was:
@@ -470,6 +483,8 @@ def run_case(case, obs):
             obs.count('op:' + fam)
             if isinstance(res, RuntimeError) and str(res) == 'INPUT-TABLE-MUTATED':
                 obs.violation('input-mutated:parse', f'operation {op}: Regions.parse changed the FITS table it was given')
+            if isinstance(res, RuntimeError) and str(res) == 'HEADER-ARGUMENT-MUTATED':
+                obs.violation('input-mutated:write', f'operation {op}: write(format="fits", header=h) changed the header object it was given')
             if isinstance(res, RuntimeError) and str(res) == 'FAILED-WRITE-TOUCHED-DESTINATION':
                 obs.violation('failed-write-leaves-trace', f'operation {op}: a write that raised created / changed the destination file (later calls see it)')
             after = pool.fingerprints()
